@@ -218,26 +218,28 @@ def fragmentsToString (k : Nat) (frags : List Bytes) : Except Int Bytes :=
     let out := copy data total
     .ok (out ++ zeros (total - out.length))
 
+/-- one iteration of the placement loop of `get_fragment_partition`. -/
+def partitionStep (k m : Nat) (st : Except Int (List (Option Bytes) × List (Option Bytes))) (f : Bytes) :
+    Except Int (List (Option Bytes) × List (Option Bytes)) :=
+  match st with
+  | .error e => .error e
+  | .ok (d, p) =>
+    if getFragmentIdx f < 0 || getFragmentIdx f ≥ ((k + m : Nat) : Int) then .error (-EBADHEADER)
+    else if (getFragmentIdx f).toNat < k then .ok (d.set (getFragmentIdx f).toNat (some f), p)
+    else .ok (d, p.set ((getFragmentIdx f).toNat - k) (some f))
+
+/-- the indexes whose slot is still empty, data first. -/
+def missingOf (k m : Nat) (d p : List (Option Bytes)) : List Nat :=
+  ((List.range k).filter fun i => (d.getD i none).isNone) ++
+  (((List.range m).filter fun i => (p.getD i none).isNone).map (· + k))
+
 /-- `get_fragment_partition`: (data, parity, missing) or an error code. -/
 def getFragmentPartition (k m : Nat) (frags : List Bytes) :
     Except Int (List (Option Bytes) × List (Option Bytes) × List Nat) :=
-  let init : Except Int (List (Option Bytes) × List (Option Bytes)) :=
-    .ok (List.replicate k none, List.replicate m none)
-  let placed := frags.foldl (fun st f =>
-    match st with
-    | .error e => .error e
-    | .ok (d, p) =>
-      let index := getFragmentIdx f
-      if index < 0 || index ≥ ((k + m : Nat) : Int) then .error (-EBADHEADER)
-      else
-        let ix := index.toNat
-        if ix < k then .ok (d.set ix (some f), p) else .ok (d, p.set (ix - k) (some f))) init
-  match placed with
+  match frags.foldl (partitionStep k m) (.ok (List.replicate k none, List.replicate m none)) with
   | .error e => .error e
   | .ok (d, p) =>
-    let missing := ((List.range k).filter fun i => (d.getD i none).isNone) ++
-                   (((List.range m).filter fun i => (p.getD i none).isNone).map (· + k))
-    if missing.length > m then .error (-EINSUFFFRAGS) else .ok (d, p, missing)
+    if (missingOf k m d p).length > m then .error (-EINSUFFFRAGS) else .ok (d, p, missingOf k m d p)
 
 /-- `prepare_fragments_for_decode`: fills the holes with fresh zeroed fragments of the
     caller-declared length and reads orig_data_size / payload size from the first
